@@ -616,8 +616,176 @@ fn c13(tier: &str) -> PropDef {
     }
 }
 
+fn c05(tier: &str) -> PropDef {
+    let quick = tier == "quick";
+    let families = vec![
+        Family {
+            name: "length-sweep",
+            count: if quick { 131 * 2 } else { 131 * 40 },
+            make: Box::new(|seed, idx| {
+                // every root-set shape up to 2^7+2 leaves, built by a seeded mix of single / batch / reopen
+                let target = idx % 131;
+                let mut r = Rng::stream(seed, "C05", idx, "sweep");
+                let mut g = G::new(idx);
+                let mut steps = vec![];
+                while g.len < target {
+                    let left = target - g.len;
+                    match r.below(5) {
+                        0 => steps.push(Step::Reopen { n: 0 }),
+                        1 | 2 => {
+                            let blk = g.blk(&mut r);
+                            g.len += 1;
+                            steps.push(Step::Append { n: 0, blk });
+                        }
+                        _ => {
+                            let k = r.range(1, left.min(17));
+                            let blks = (0..k).map(|_| g.blk(&mut r)).collect();
+                            g.len += k;
+                            steps.push(Step::Batch { n: 0, blks });
+                        }
+                    }
+                }
+                steps.push(Step::Reopen { n: 0 });
+                for _ in 0..r.range(2, 8) {
+                    steps.push(Step::Sync { to: 1, req: gen::rand_req(&mut r) });
+                }
+                let mut cfg = Cfg::basic(seed ^ idx);
+                cfg.replicas = 1;
+                cfg.judge_tree = true;
+                cfg.scan = ScanMode::None;
+                world_case(cfg, steps, Fault::None)
+            }),
+        },
+        Family {
+            name: "seeded",
+            count: if quick { 1500 } else { 40_000 },
+            make: Box::new(|seed, idx| {
+                let mut r = Rng::stream(seed, "C05", idx, "seeded");
+                let mut g = G::new(idx);
+                let n = r.range(4, 30) as usize;
+                let steps = gen::replica_history(&mut r, &mut g, n, 1);
+                let mut cfg = Cfg::basic(seed ^ idx);
+                cfg.replicas = 1;
+                cfg.judge_tree = true;
+                cfg.scan = ScanMode::None;
+                world_case(cfg, steps, Fault::None)
+            }),
+        },
+        Family {
+            name: "long",
+            count: if quick { 6 } else { 300 },
+            make: Box::new(|seed, idx| {
+                let mut r = Rng::stream(seed, "C05", idx, "long");
+                let mut g = G::new(idx);
+                let mut steps = vec![];
+                let total = r.range(200, 5000) as u32;
+                let mut done = 0u32;
+                while done < total {
+                    let c = r.range(1, 900).min((total - done) as u64) as u32;
+                    steps.push(Step::Fill { n: 0, count: c, size: r.range(0, 64) as u32, tag0: g.next_tag });
+                    g.next_tag += c;
+                    g.len += c as u64;
+                    done += c;
+                    if r.chance(1, 3) {
+                        steps.push(Step::Reopen { n: 0 });
+                    }
+                }
+                for _ in 0..6 {
+                    steps.push(Step::Sync { to: 1, req: gen::rand_req(&mut r) });
+                }
+                let mut cfg = Cfg::basic(seed ^ idx);
+                cfg.replicas = 1;
+                cfg.judge_tree = true;
+                cfg.scan = ScanMode::None;
+                world_case(cfg, steps, Fault::None)
+            }),
+        },
+        Family {
+            name: "crash-recovery-then-flush",
+            count: if quick { 150 } else { 5_000 },
+            make: Box::new(|seed, idx| {
+                // recovered cores run a suffix; the suffix world judges tree/header/signatures too
+                let mut r = Rng::stream(seed, "C05", idx, "crash");
+                let mut g = G::new(idx);
+                let (mix, _) = gen::pick_mix(&mut r);
+                let n = history_len(&mut r);
+                let steps = gen::writer_history(&mut r, &mut g, n, mix);
+                let mut cfg = Cfg::basic(seed ^ idx);
+                cfg.judge_tree = true;
+                world_case(cfg, steps, Fault::CrashAll { node: 0, tear: false, suffix_seed: r.next(), double: false, sample: 0 })
+            }),
+        },
+    ];
+    PropDef {
+        level: "exploration",
+        rule: "after every mutating step the raw tree store is walked: every non-blank 40-byte node must equal the independent reference (own flat-tree arithmetic, BLAKE2b-256 leaf/parent hashes) for the writer's block sequence, and on a freshly flushed writer every full node below length must be present; the stored header root_hash must equal the reference tree hash of the reference roots, the header signature and every log-entry / served-proof signature must verify under the core's public key over namespace||root hash||LE64 length||LE64 fork with a COMPUTED namespace; every node and block value in every served proof must equal the reference. Families: all lengths 0..130 (every root-set shape up to 2^7+2) built by seeded single/batch/reopen mixes, seeded writer+replica histories, logs of 200-5000 blocks with block sizes 0-64 B (sizes up to 12 KiB in the seeded family), and recovered-after-crash cores followed by flushing steps. distinct = trace hash; non-trivial = mutating step and reopen.",
+        assumptions: vec!["blake2 and ed25519-dalek primitives are the trusted base", "the JS-layout reader of C06 is used to locate header and entries"],
+        families,
+    }
+}
+
+fn c06(tier: &str) -> PropDef {
+    let quick = tier == "quick";
+    let families = vec![
+        Family {
+            name: "golden-interop",
+            count: 1,
+            make: Box::new(|_seed, _idx| Case { prop: String::new(), family: String::new(), run: 0, body: Body::Golden }),
+        },
+        Family {
+            name: "reader-writer-histories",
+            count: if quick { 1500 } else { 50_000 },
+            make: Box::new(|seed, idx| {
+                let mut r = Rng::stream(seed, "C06", idx, "reader");
+                let mut g = G::new(idx);
+                let (mix, _) = gen::pick_mix(&mut r);
+                let n = r.range(3, 30) as usize;
+                let steps = gen::writer_history(&mut r, &mut g, n, mix);
+                let mut cfg = Cfg::basic(seed ^ idx);
+                cfg.judge_layout = true;
+                cfg.scan = ScanMode::None;
+                world_case(cfg, steps, Fault::None)
+            }),
+        },
+        Family {
+            name: "reader-replica-histories",
+            count: if quick { 1000 } else { 30_000 },
+            make: Box::new(|seed, idx| {
+                let mut r = Rng::stream(seed, "C06", idx, "reader-replica");
+                let mut g = G::new(idx);
+                let n = r.range(3, 30) as usize;
+                let steps = gen::replica_history(&mut r, &mut g, n, 1);
+                let mut cfg = Cfg::basic(seed ^ idx);
+                cfg.replicas = 1;
+                cfg.judge_layout = true;
+                cfg.scan = ScanMode::None;
+                world_case(cfg, steps, Fault::None)
+            }),
+        },
+        Family {
+            name: "js-encoded-stores",
+            count: if quick { 2500 } else { 80_000 },
+            make: Box::new(|seed, idx| {
+                let mut r = Rng::stream(seed, "C06", idx, "jswrite");
+                let spec = crate::jsfmt::gen_js_store(&mut r, idx);
+                Case { prop: String::new(), family: String::new(), run: 0, body: Body::JsStore(spec) }
+            }),
+        },
+    ];
+    PropDef {
+        level: "exploration",
+        rule: "(reader) at every operation boundary of writer and replica histories (unflushed entries of every flag combination the crate produces: append 2|4|8, clear 8, block proof 2|8, upgrade proof 2|4 / 4) the four files are dumped and an independent reader that implements only the JavaScript Hypercore 10 layout and open algorithm (own compact-encoding, own CRC-32) must reconstruct what the API reports: length, byte_length, fork, public key, writability, has(i) and block bytes. (golden) the five-step interop scenario is executed Rust-only on SimDisk and the 20 file hashes must equal the SHA-256 values certified against JavaScript. (writer) the reference encoder lays out model histories the way JS would - header in either slot with any bit parity, other slot older/absent/garbage, 0-4 entries, atomic batches, and a foreign process that died mid-batch (trailing partial entries), left a cut last entry, or stale entries with the other header bit - and the crate must open it (within the watchdog) to the same state. distinct = case hash; non-trivial = history with mutating step and reopen / store with at least one operation.",
+        assumptions: vec![
+            "the layout rules were transcribed from hypercore 10 (oplog.js, messages.js, bitfield, merkle-tree); the 20 certified hashes are the only direct link to the JS implementation available offline",
+        ],
+        families,
+    }
+}
+
 pub fn prop_def(prop: &str, tier: &str) -> Option<PropDef> {
     match prop {
+        "C05" => Some(c05(tier)),
+        "C06" => Some(c06(tier)),
         "C04" => Some(c04(tier)),
         "C08" => Some(c08(tier)),
         "C09" => Some(c09(tier)),
